@@ -1299,7 +1299,7 @@ impl PatternFusion for RepeatInterleaveFusion {
         let axes = Pattern::const_symbol("axes");
         let t1 = Pattern::binary_op("Unsqueeze", x, axes);
         let expand_shape = Pattern::symbol("expand_shape");
-        let expanded = Pattern::binary_op("Expand", t1, expand_shape);
+        let expanded = Pattern::binary_op("Expand", t1, expand_shape).with_name("expand");
         let reshape_shape = Pattern::symbol("reshape_shape");
         Pattern::binary_op("Reshape", expanded, reshape_shape).with_name("reshape")
     }
@@ -1383,6 +1383,37 @@ impl PatternFusion for RepeatInterleaveFusion {
             // but haven't found a use for this.
             return Err(FusionError::NoEffect);
         };
+
+        // The subgraph is only a repeat-interleave if the new axis is inserted
+        // directly after the repeated axis and `Expand` broadcasts only that
+        // new axis. If the new axis is inserted before the repeated axis, the
+        // subgraph tiles the input instead.
+        let axes_id = pat_match.node_id("axes").ok_or(FusionError::NoMatch)?;
+        let Some(&[unsqueeze_axis]) = graph.get_vector::<i32>(axes_id) else {
+            return Err(FusionError::CheckFailed("unsupported unsqueeze axes"));
+        };
+        let unsqueeze_axis = if unsqueeze_axis < 0 {
+            unsqueeze_axis + in_shape.len() as i32 + 1
+        } else {
+            unsqueeze_axis
+        };
+        if unsqueeze_axis != axis as i32 + 1 {
+            return Err(FusionError::CheckFailed("new axis does not follow repeated axis"));
+        }
+        let expanded_shape = pat_match
+            .node_id("expand")
+            .and_then(|id| graph.get_node(id))
+            .and_then(|n| n.as_operator())
+            .and_then(|op| op.output_ids().first().copied().flatten())
+            .and_then(|id| graph.get_node(id))
+            .and_then(|n| n.shape());
+        if let Some(expanded_shape) = expanded_shape {
+            let mut expected_shape = in_shape.to_vec();
+            expected_shape.insert(axis + 1, Dimension::Fixed(repeats));
+            if expanded_shape.as_ref() != expected_shape.as_slice() {
+                return Err(FusionError::CheckFailed("expand does not repeat only the new axis"));
+            }
+        }
 
         Ok(RepeatInterleave { axis, repeats })
     }
